@@ -79,3 +79,62 @@ def pick_samples(events):
             if c:
                 out.append(c[len(c) // 2])
     return out[:6]
+
+
+PAR1_QUICK = [("j1", "all"), ("j2", "few")]
+PAR1_THOROUGH = [("j1", "all"), ("j2", "all"), ("j3", "few")]
+
+
+def par1_family(ctx, prefixes, instances=None, big=True):
+    """PAR1: design-level model checking of Par1Archive, replay of every Verify/Repair edge on
+    the real par1 code, seeded larger sets; all judged by Trace_Par1."""
+    if instances is None:
+        instances = PAR1_THOROUGH if ctx.thorough else PAR1_QUICK
+    all_events, all_verdicts = [], []
+    drift = 0
+    nedges = 0
+    for inst, pos in instances:
+        cfg = "MC_Par1_%s_%s.cfg" % (inst, pos)
+        r = ctx.mc("MC_Par1", cfg, "Par1Archive instance %s/%s" % (inst, pos), workers=12, timeout=3000)
+        insts, edges = r.tagged("INSTANCE"), r.tagged("EDGE")
+        if not insts or not edges:
+            raise vlib.Inconclusive("TLC emitted no instance/edges for " + cfg)
+        if len(edges) > 40000:
+            import random
+            edges = random.Random(ctx.seed).sample(edges, 40000)
+        nedges += len(edges)
+        cases = ctx.work.path("cases1-%s.json" % inst)
+        with open(cases, "w") as f:
+            json.dump({"instance": insts[0], "edges": edges}, f)
+        trace = ctx.drive(["p1edges", "-in", cases], out_name="edges1-%s.ndjson" % inst)
+        events = vlib.read_ndjson(trace)
+        verdicts = ctx.judge("Trace_Par1", trace)
+        base = len(all_events)
+        all_verdicts += [dict(v, i=v["i"] + base) for v in verdicts]
+        drift += ctx.last_drift
+        all_events += events
+    if big:
+        trace = ctx.drive(["p1big"], out_name="p1big.ndjson")
+        events = vlib.read_ndjson(trace)
+        verdicts = ctx.judge("Trace_Par1", trace)
+        base = len(all_events)
+        all_verdicts += [dict(v, i=v["i"] + base) for v in verdicts]
+        all_events += events
+        ctx.extra["par1_big_scenarios"] = len(set(e["scn"] for e in events))
+        ctx.extra["par1_singular_outcomes_justified_by_tlc"] = sum(1 for e in events if e["res"]["err"] == "singular")
+    ctx.extra["par1_edges_replayed"] = ctx.extra.get("par1_edges_replayed", 0) + nedges
+    ctx.extra["par1_drift_events"] = ctx.extra.get("par1_drift_events", 0) + drift
+    obs = [v for v in all_verdicts if v["clause"].startswith("OBS.")]
+    if obs:
+        raise vlib.Inconclusive("harness facts disagree with TLC's recomputation: %s" % json.dumps(obs[:3]))
+    return all_events, [v for v in all_verdicts if any(v["clause"].startswith(p) for p in prefixes)]
+
+
+def combine(*parts):
+    """parts: (events, verdicts) pairs -> concatenated with shifted indices"""
+    ev, vd = [], []
+    for e, v in parts:
+        base = len(ev)
+        vd += [dict(x, i=x["i"] + base) for x in v]
+        ev += e
+    return ev, vd
